@@ -574,6 +574,13 @@ func (e *histEnv) step(t []string) (res string) {
 			return fmt.Sprintf("val %d:%s RETURNED-SLICE-OF-EARLIER-GET-CHANGED(%s)", len(data), hex.EncodeToString(s[:6]), hex.EncodeToString([]byte(corrupted)))
 		}
 		return fmt.Sprintf("val %d:%s", len(data), hex.EncodeToString(s[:6]))
+	case "hasmain":
+		// is the committed (main) version store registered? (it must be from the moment Open returns: commits that
+		// find none would each create their own)
+		if e.h.HasCommittedStore() {
+			return "yes"
+		}
+		return "no"
 	case "keys":
 		st, ok := e.store(atoi(t[1]))
 		if !ok {
